@@ -347,8 +347,29 @@ class Interp:
                 key = (mod.name, id(node))
                 if key not in self._modconst_cache:
                     c2 = Ctx()
-                    self._modconst_cache[key] = self.ev(node, {}, Frame(mod), c2)
-                return self._modconst_cache[key]
+                    v = self.ev(node, {}, Frame(mod), c2)
+                    if isinstance(v, (PyList, PyDict, PySet)):
+                        v.module_level = mod.name
+                    self._modconst_cache[key] = v
+                v = self._modconst_cache[key]
+                if isinstance(v, (PyList, PyDict, PySet)):
+                    # a module-level mutable object: give every path its own copy and watch mutations (frame condition)
+                    import copy
+                    pc = getattr(ctx, "_modcopies", None)
+                    if pc is None:
+                        pc = {}
+                        ctx._modcopies = pc
+                    if key not in pc:
+                        pc[key] = copy.copy(v)
+                        if isinstance(v, PyList):
+                            pc[key].items = list(v.items)
+                        elif isinstance(v, PyDict):
+                            pc[key].d = dict(v.d)
+                        else:
+                            pc[key].s = set(v.s)
+                        pc[key].module_level = mod.name
+                    return pc[key]
+                return v
             if r[0] == "ext":
                 dotted = r[1]
                 if dotted in self.ext_models:
@@ -458,6 +479,8 @@ class Interp:
         raise Unsupported(f"setattr on {type(o).__name__}")
 
     def setitem(self, o, k, v, ctx):
+        if getattr(o, "module_level", None):
+            ctx.ghost.module_writes.append((o.module_level, "item store into a module-level object"))
         if isinstance(o, PyDict):
             k = self.concrete_key(k, ctx)
             if getattr(o, "preexisting", False):
@@ -1537,6 +1560,9 @@ class Interp:
         return o
 
     def call_method(self, o, name, args, kwargs, ctx):
+        if getattr(o, "module_level", None) and name in ("add", "append", "pop", "update", "clear", "setdefault", "extend", "insert",
+                                                         "remove", "discard", "sort", "reverse"):
+            ctx.ghost.module_writes.append((o.module_level, f"{name}() on a module-level object"))
         if _concrete(o) and all(_concrete(a) for a in args) and all(_concrete(a) for a in kwargs.values()) \
                 and isinstance(o, (str, bytes, int, float, tuple)):
             return self.native_method(o, name, args, kwargs, ctx)
